@@ -2,3 +2,4 @@ import AeicModel.Scalar
 import AeicModel.Wire
 import AeicModel.Generated.Constants
 import AeicModel.Store
+import AeicModel.Merge
